@@ -33,6 +33,16 @@ def handle : List String → Verdict
         nontrivial := wire.length > 0, tags := [tag, "end:" ++ (if isDecode then "decode-error" else kind)],
         sig := s!"stream;{tag};{if isDecode then "decode" else kind}" }
     | _, _, _ => .badOp
+  | ["mux", nS, wireH] =>
+    match nS.toNat?, hexField wireH with
+    | some n, some wire =>
+      let (frames, err) := readAll wire
+      -- every frame is one JSON object: no header text of another frame inside a body
+      let whole := frames.all fun b => b.head? == some 123 && b.getLast? == some 125 && !Bytes.hasInfix [67, 111, 110, 116, 101, 110, 116, 45, 76] b
+      { predfail := if err.isNone && frames.length == n && whole then none else
+          some s!"a connection answering calls while sending notifications wrote {frames.length} readable frame(s) of {n}, reader error={err.map errName}, every frame a whole message={whole}",
+        nontrivial := true, tags := ["mux"], sig := "mux" }
+    | _, _ => .badOp
   | ["wcancel", kS, wireH, b1H, b2H, err1S, err2S] =>
     match hexField wireH, hexField b1H, hexField b2H with
     | some wire, some b1, some b2 =>
@@ -71,8 +81,8 @@ def handle : List String → Verdict
     let bad := outs.filter fun (_, id, res) => !(res == "cancelled" || res == s!"r{id}")
     let ids := (outs.map (·.2.1)).mergeSort (· ≤ ·)
     let idsOk := ids == (List.range outs.length).map (· + 1)
-    -- a call in mode 0/1/4 (answered, not cancelled by the peer) must get its response
-    let starved := outs.filter fun (t, _, res) => (modes.getD t 9) ∈ [0, 1, 4] && res == "cancelled"
+    -- a call in mode 0/1/4/5 (answered, not cancelled by the peer) must get its response
+    let starved := outs.filter fun (t, _, res) => (modes.getD t 9) ∈ [0, 1, 4, 5] && res == "cancelled"
     { mismatch := if model.isSome && implSorted == modelSorted then none else
         some s!"replayed schedule gives {modelSorted} but the implementation reported {implSorted}",
       predfail := if bad.isEmpty && idsOk && starved.isEmpty then none else
